@@ -322,6 +322,7 @@ type c04Case struct {
 	Target int       `json:"target_type,omitempty"`
 	Sig    []int     `json:"signature,omitempty"`
 	Fast   bool      `json:"fast_invoker,omitempty"`
+	Hist   []c04HOp  `json:"history,omitempty"`
 }
 
 func c04CheckValue(c c04Config, ti int) string {
@@ -496,6 +497,127 @@ func c04CheckApply(c c04Config, withJ bool) string {
 		}
 	}
 	return untouched()
+}
+
+type c04HOp struct {
+	Kind  string `json:"op"` // reg | value | invoke
+	Scope int    `json:"scope,omitempty"`
+	Type  int    `json:"type"`
+}
+
+func (o c04HOp) String() string {
+	if o.Kind == "reg" {
+		return fmt.Sprintf("Map(scope%d,%s)", o.Scope, c04Names[o.Type])
+	}
+	return fmt.Sprintf("%s(%s)", o.Kind, c04Names[o.Type])
+}
+
+func c04HistoryOps() []c04HOp {
+	var ops []c04HOp
+	for sc := 0; sc < 2; sc++ {
+		for _, ti := range []int{1, 2, 5, 0} {
+			ops = append(ops, c04HOp{Kind: "reg", Scope: sc, Type: ti})
+		}
+	}
+	for _, ti := range []int{5, 1, 2} {
+		ops = append(ops, c04HOp{Kind: "value", Type: ti})
+	}
+	ops = append(ops, c04HOp{Kind: "invoke", Type: 5}, c04HOp{Kind: "invoke", Type: 6})
+	return ops
+}
+
+// c04RunHistory executes ops on two nested live injectors, comparing every resolution with the model.
+func c04RunHistory(ops []c04HOp) (bad string, at int) {
+	reg := &c04Reg{chTags: map[uintptr]string{}}
+	injs := []inject.Injector{inject.New(), inject.New()}
+	injs[0].SetParent(injs[1])
+	scopes := []c04Scope{{}, {}}
+	for n, op := range ops {
+		switch op.Kind {
+		case "reg":
+			v := reg.mkValue(op.Type, fmt.Sprintf("s%d#%d", op.Scope, n), n)
+			c04Register(injs[op.Scope], op.Type, v, "Map")
+			scopes[op.Scope][c04Types[op.Type]] = v
+		case "value":
+			got := injs[0].Value(c04Types[op.Type])
+			allowed := c04Resolve(scopes, c04Types[op.Type])
+			if !c04Allowed(reg, allowed, got) {
+				return fmt.Sprintf("step %d: Value(%s) = %s, resolution at this point allows %s", n+1, c04Names[op.Type], reg.id(got), c04Ids(reg, allowed)), n
+			}
+		case "invoke":
+			rec := &c04Call{}
+			plain, _ := c04Funcs([]int{op.Type}, rec)
+			_, err := injs[0].Invoke(plain)
+			allowed := c04Resolve(scopes, c04Types[op.Type])
+			if len(allowed) == 0 {
+				if err == nil || rec.n != 0 {
+					return fmt.Sprintf("step %d: Invoke(func(%s)) must fail without running the body (err=%v, ran %d)", n+1, c04Names[op.Type], err, rec.n), n
+				}
+				continue
+			}
+			if err != nil || rec.n != 1 || !c04Allowed(reg, allowed, rec.args[0]) {
+				got := "<none>"
+				if len(rec.args) > 0 {
+					got = reg.id(rec.args[0])
+				}
+				return fmt.Sprintf("step %d: Invoke(func(%s)) received %s (err=%v), resolution at this point allows %s", n+1, c04Names[op.Type], got, err, c04Ids(reg, allowed)), n
+			}
+		}
+	}
+	return "", -1
+}
+
+func c04Histories(r *core.Run) {
+	ops := c04HistoryOps()
+	depth := 5
+	if r.Thorough() {
+		depth = 6
+	}
+	r.Bounds["history_depth"] = depth
+	r.Bounds["history_ops"] = len(ops)
+	total := 1
+	for i := 0; i < depth; i++ {
+		total *= len(ops)
+	}
+	r.Parallel(func(w, nw int, l *core.Local) {
+		for c := w; c < total; c += nw {
+			if c%4096 == 0 && r.Expired() {
+				return
+			}
+			hist := make([]c04HOp, depth)
+			x := c
+			resolves, regs := 0, 0
+			for i := depth - 1; i >= 0; i-- {
+				hist[i] = ops[x%len(ops)]
+				x /= len(ops)
+				if hist[i].Kind == "reg" {
+					regs++
+				} else {
+					resolves++
+				}
+			}
+			if resolves == 0 {
+				continue
+			}
+			l.States++
+			l.Evals++
+			l.Transitions += int64(depth)
+			l.Traces++
+			if regs >= 2 && resolves >= 2 {
+				l.NonTrivial++
+			}
+			bad, at := c04RunHistory(hist)
+			if bad != "" {
+				l.Class("mismatch")
+				l.Violate("history/"+hist[at].String(), bad+fmt.Sprintf(" [history %v]", hist), c04Case{What: "history", Hist: hist[:at+1]})
+			} else {
+				l.Class("history")
+				if c%50021 == 0 {
+					l.Sample(fmt.Sprint(hist))
+				}
+			}
+		}
+	})
 }
 
 func c04Signatures() [][]int {
@@ -713,6 +835,9 @@ func c04Run(r *core.Run) {
 			}
 		}
 	})
+	// phase C: histories on live injectors - registrations and resolutions interleaved (a resolution
+	// must not change what later registrations mean)
+	c04Histories(r)
 	fl := core.NewLocal()
 	c04Flame(fl)
 	fl.States++
@@ -743,6 +868,13 @@ func c04Replay(raw json.RawMessage) (bool, string) {
 	case "apply":
 		for i := 0; i < 50; i++ {
 			if b := c04CheckApply(c.Config, c.Fast); b != "" {
+				return true, b
+			}
+		}
+		return false, ""
+	case "history":
+		for i := 0; i < 50; i++ {
+			if b, _ := c04RunHistory(c.Hist); b != "" {
 				return true, b
 			}
 		}
